@@ -1,15 +1,2 @@
-(* GENERATED by translate/py2v.py from matched_markets/methodology/tbrmmdiagnostics.py -- do not edit; rewritten on every run *)
-From Coq Require Import List String.
-Import ListNotations.
-Open Scope string_scope.
-
-(* class-level cache slots initialised to None *)
-Definition gen_slots : list string := ["_corr"; "_required_impact"; "_pretestfit"; "_aatest"; "_bbtest"; "_dwtest"; "_tests_ok"].
-(* slots the control-series setter resets unconditionally *)
-Definition gen_x_resets : list string := ["_corr"; "_required_impact"; "_pretestfit"; "_aatest"; "_bbtest"; "_dwtest"; "_tests_ok"].
-(* the treatment-series setter clears the control series through the control-series setter *)
-Definition gen_y_clears_x : bool := true.
-(* member (property or method) -> slot it memoises in *)
-Definition gen_memo : list (string * option string) := [("aatest", Some "_aatest"); ("bbtest", Some "_bbtest"); ("corr", Some "_corr"); ("corr_test", None); ("dwtest", Some "_dwtest"); ("estimate_required_impact", None); ("pretestfit", Some "_pretestfit"); ("required_impact", Some "_required_impact"); ("tbrfit", None); ("tests_ok", Some "_tests_ok")].
-(* member -> other members (or "slot:<name>" for another member's slot) it reads *)
-Definition gen_deps : list (string * list string) := [("aatest", []); ("bbtest", ["_brownian_bridge_bounds"; "pretestfit"]); ("corr", []); ("corr_test", ["corr"]); ("dwtest", ["pretestfit"]); ("estimate_required_impact", ["_impact_estimate"]); ("pretestfit", []); ("required_impact", ["corr"; "estimate_required_impact"]); ("tbrfit", ["pretestfit"]); ("tests_ok", ["aatest"; "bbtest"; "corr_test"; "dwtest"])].
+(* translator refused: Unsupported: lru_cache method _impact_estimate depends on object state: ['y'] *)
+Translator_refused_this_source.
